@@ -10,6 +10,7 @@ Script keys (origin.h2_script):
   hold            K: hold all responses until K requests have fully arrived
   order           'fifo' | 'reverse' | 'interleave' (DATA round-robin across held streams)
   data_chunk      size of response DATA frames
+  after_end       'ping' | 'wu': a PING / one byte of connection credit follows each response 10 ms later
   actions         [{'when': ('head'|'end', n), 'do': 'goaway'|'rst'|'settings'|'ping'|'close',
                     ...args}]  n = ordinal of the request on this connection; optional 'conn': k restricts
                     the action to the k-th connection the origin accepted
@@ -652,12 +653,26 @@ class H2Server:
             return
         if not body and not resp.trailers:
             self.ledger.server_ended(sid)
+            self._after_end(resp.delay)
         else:
             self.pending_out[sid] = {"data": body, "pos": 0, "resp": resp, "truncate": resp.truncate}
         self._flush(resp.delay)
         for r2, p2 in waiting:
             if not getattr(r2, "dropped", False):
                 self._send_head(r2, p2)
+
+    def _after_end(self, delay: float = 0.0) -> None:
+        """Script key 'after_end': a frame that follows the end of a response a little later, in a segment of its own
+        (PING, or one byte of connection credit) - legal chatter that leaves an idle connection's socket readable."""
+        what = self.script.get("after_end")
+        if not what:
+            return
+        self._flush(delay)
+        if what == "ping":
+            self.conn.ping(b"hvafter!")
+        else:
+            self._wu(0, 1)
+        self._flush(delay + self.script.get("after_end_delay", 0.01))
 
     def _pump(self) -> None:
         """Send as much pending response DATA as the client's windows allow."""
@@ -716,6 +731,7 @@ class H2Server:
                                                    end_stream=True)
                         self.pending_out.pop(sid, None)
                         self.ledger.server_ended(sid)
+                        self._after_end()
                         break
                     if interleave:
                         break
